@@ -1380,9 +1380,14 @@ def k5(facts, tier):
             got.setdefault(b, []).append(i)
     missing = sorted(want - set(got))
     mixed = [i for i, c in enumerate(slots) if len(c) > 1]
-    if ev_.unknown:
+    mentions_target = [y for y in walk(f["body"]) if y.get("k") == "Call" and (callee(y) or "").rsplit("::", 1)[-1] in
+                       ("iter_mut", "for_each", "zip", "chain", "copy_from_slice", "clone_from_slice", "swap", "fill")
+                       and any(z.get("k") == "Var" and z.get("v") == target for z in walk(y))]
+    if ev_.unknown or not any(slots) or (missing and any((callee(y) or "").rsplit("::", 1)[-1] in ("iter_mut", "for_each", "zip", "chain")
+                                                          for y in mentions_target)):
+        # nothing (or an iterator pipeline) fills the array in a form the folding knows: no verdict
         yield ob(["C14"], "K5", "nonce-injective", "undecided", where(f),
-                 f"{f['id']}: construction of the nonce uses a form that is not constant-folded: {ev_.unknown[:3]}")
+                 f"{f['id']}: construction of the nonce uses a form that is not constant-folded: {(ev_.unknown or ['iterator pipeline over the nonce array'])[:3]}")
     elif missing:
         yield ob(["C14"], "K5", "nonce-injective", "violation", where(f),
                  f"{f['id']}: byte(s) {', '.join(f'{n}[{i}]' for n, i in missing[:4])} of the stored nonce state do not reach the nonce "
